@@ -50,7 +50,7 @@ def normal_form_family(w, seed, spec):
     fails = []
     cases = list(K.fixed_chains()) + K.Gen(seed).expressions(spec.get('n', 30), depth=2)
     fails += _inverse_pairs_vanish()
-    skip_unique = True      # listed open finding C12-unique-pair-not-reduced / C07-unique-pair-not-reduced
+    skip_unique = _is_open('C12-unique-pair-not-reduced')     # (repaired in /repo: the pairs are checked again)
     for name, op in cases:
         if skip_unique and ('Is.T,Is' in name or 'Pk.T,Pk' in name):
             continue
@@ -60,6 +60,16 @@ def normal_form_family(w, seed, spec):
         if len(fails) >= 5 or time.time() - t0 > spec.get('budget_s', 60):
             break
     return fails
+
+
+def _is_open(fid):
+    import json
+    import os
+    try:
+        k = json.load(open(os.path.join(os.path.dirname(os.path.dirname(os.path.abspath(__file__))), 'known_findings.json')))
+        return any(f['id'] == fid and f.get('status') == 'open' for f in k['findings'])
+    except Exception:       # noqa: BLE001
+        return False
 
 
 def _inverse_pairs_vanish():
